@@ -91,7 +91,7 @@ def producers():
 MATCHED = {      # producer -> histories whose total number of releases the property fixes
     0: {'new': ['del', 'del,sweep', 'sweep', 'sweep,sweep', 'del,sweep,sweep'],
         'copy': ['del', 'del,sweep', 'sweep'],
-        'alloc': ['sweep', 'sweep,sweep'],
+        'alloc': ['sweep', 'sweep,sweep', 'dealloc,sweep', 'dealloc,sweep,sweep'],
         'new_root': ['del_root', 'del_root,sweep', 'sweep', 'sweep,sweep'],
         'alloc_root': ['sweep'],
         'new_raw': ['del_raw', 'del_raw,sweep', 'sweep'],
@@ -194,6 +194,7 @@ def strip_use(line):
 
 
 F7_SIG = 'del-nonheap-silently-ignored'
+F8_SIG = 'alloc-dealloc-stays-registered'
 
 
 def oracle_detail(case, impl, spec):
@@ -217,10 +218,18 @@ def oracle_detail(case, impl, spec):
     ops = case.split(' ')[5].split(',')
     if len(steps) != len(demands):
         return fails + [('transcript has %d steps, %d operations issued (crash/timeout?): %s' % (len(steps), len(demands), impl[-80:]), False)]
+    base = case.split(' ')[4].split(':')[0]
+    released = 0
     for n, (st, d, op) in enumerate(zip(steps, demands, ops)):
         if d == 'any':
-            if st['fo'] > 1:
-                fails.append(('step %d (%s): heap object reached free() %d times' % (n, op, st['fo']), False))
+            released += st['fo']
+            if released > 1:
+                fails.append(('step %d (%s): heap object reached free() a second time' % (n, op), False))
+            if op == 'sweep' and st['out'] != 'ok':
+                # a collection must never throw; when it does here, it tried to finalise a block that was released before
+                f8 = base == 'alloc' and ops[0].startswith('dealloc') and released == 1 and st['out'] == 'raise:ValueError'
+                fails.append(('step %d (sweep): the collection gives %s: the collector tried to finalise the object again after '
+                              'it had been released %d time(s)' % (n, st['out'], released), 'F8' if f8 else False))
             continue
         nh = d.startswith('nf1') or d.startswith('att1')
         if st['fo'] or st['ro']:
@@ -231,8 +240,8 @@ def oracle_detail(case, impl, spec):
             fails.append(('step %d (%s): header of a non-heap object changed' % (n, op), False))
         if d.startswith('att'):
             if st['out'] not in ('raise:ResourceError', 'raise:ValueError'):
-                f7 = d.endswith('!f7') and st['out'] == 'ok' and not (st['fo'] or st['ro'] or st['fb'] or st['rb']) \
-                    and (st['h'], st['b'], st['c']) == ('1', '1', '1')
+                f7 = 'F7' if d.endswith('!f7') and st['out'] == 'ok' and not (st['fo'] or st['ro'] or st['fb'] or st['rb']) \
+                    and (st['h'], st['b'], st['c']) == ('1', '1', '1') else False
                 fails.append(('step %d (%s): attempt on a non-heap object gives %s, the property demands ResourceError or ValueError' % (n, op, st['out']), f7))
             elif st['fb'] or st['rb']:
                 fails.append(('step %d (%s): raised %s but had already passed the object\'s buffer to free/realloc (free %d, realloc %d): the object is not left intact' % (n, op, st['out'], st['fb'], st['rb']), False))
@@ -249,13 +258,19 @@ def oracle(case, impl, spec):
     f = oracle_detail(case, impl, spec)
     if not f:
         return None
-    # every failing demand of this cell is the open finding F7 (del/del_root silently ignored, object untouched)
-    tag = '[F7] ' if all(k for _, k in f) else ''
+    # every failing demand of this cell is one and the same open finding
+    tags = set(k for _, k in f)
+    tag = '[%s] ' % tags.pop() if len(tags) == 1 and False not in tags else ''
     return tag + '; '.join(m for m, _ in f)
 
 
 def classify(case, impl, why):
-    return F7_SIG if why and why.startswith('[F7] ') and case.split(' ')[0] == '0' else None
+    if why and case.split(' ')[0] == '0':
+        if why.startswith('[F7] '):
+            return F7_SIG
+        if why.startswith('[F8] '):
+            return F8_SIG
+    return None
 
 
 def corr(case, impl, model):
@@ -298,6 +313,7 @@ CORPUS = [
     '0 Int Int Int stack del',                  # F7 witness (open finding)
     '0 Type Int Int static del_root',           # F7 on a static object
     '0 Int Int Int new del,sweep,sweep',
+    '0 String Int Int alloc dealloc,sweep',      # F8 witness (open finding): alloc + dealloc leaves the registry entry behind
 ]
 
 
@@ -384,10 +400,10 @@ def run(ctx):
         d2.report()
 
     # the open finding F7 must be re-confirmed on every run by its recorded witness
-    seen_f7 = any(classify(c, i, why) == F7_SIG for (c, i, m, s, why) in d.oracle_fail)
-    ctx.cov['f7_cells'] = sum(1 for (c, i, m, s, why) in d.oracle_fail if classify(c, i, why) == F7_SIG)
-    if not seen_f7:
-        ctx.notes.append('finding F7 (del of a non-heap object silently ignored) did not reproduce: update findings.d/C19.json')
+    for sig, key in ((F7_SIG, 'f7_cells'), (F8_SIG, 'f8_cells')):
+        ctx.cov[key] = sum(1 for (c, i, m, s, why) in d.oracle_fail if classify(c, i, why) == sig)
+        if not ctx.cov[key]:
+            ctx.notes.append('open finding %s did not reproduce in this run: update findings.d/C19.json' % sig)
 
     def extra(dd):
         dd.feed(random_histories(ctx.rng, 15000))
